@@ -20,7 +20,7 @@ func init() {
 			"oracle: every statement after a save posts exactly what the reference semantics posts with the saved account's visible balance lowered by the save rule (never raised, never below zero unless already negative); save emits no posting; negative save rejected; a script that only the saved funds could have paid for (funded without its save statements, unfunded with them) must fail; statements attributed through prefix runs; " +
 			"non-trivial = the script contains a save that changed a visible balance and a later send drawing on that account; distinct = script text + sheet",
 		Assumptions: []string{"BFS deduplication merges histories with the same visible balance vector; the un-deduplicated levels (a) establish that this vector determines the future"},
-		QuickBudget: 70 * time.Second,
+		QuickBudget: 240 * time.Second,
 		ThoroBudget: 12 * time.Minute,
 		Run:         runC08,
 	})
